@@ -30,8 +30,66 @@ def clause1(P, res, prop="C05"):
     return n
 
 
+GATE_FIELD = r"(waiter(s|_count)?|parked\w*)$"
+FENCE_ROWS = {
+    "fibre::internal::slab_chain::retire_node": "Acquire fence before freeing a slab whose refcount dropped to zero (reclamation, not a wake protocol)",
+    "fibre::internal::slab_chain::seal_slab": "Acquire fence before freeing a sealed slab (reclamation)",
+}
+
+
+def clause2(P, res):
+    import re
+    from rules import common
+    rid = "C05-2"
+    res.rule(rid, "notifier shape: every read (load/CAS) of a waiter-count or parked-flag gate is dominated by a SeqCst fence in the same function "
+                  "(publish, fence, read gate — the mirror of register, fence, re-check), and every fence in the wake protocols is SeqCst")
+    for b in P.bodies.values():
+        if not b.id.startswith("fibre::") or not common.in_scope(b.id) or b.impl_trait == "core::fmt::Debug":
+            continue
+        fences = [e for e in b.calls() if e.is_fence]
+        for f in fences:
+            c = b.const_of_operand(f.args[0]) if f.args else None
+            o = (c or {}).get("variant")
+            key = f"{b.id}:fence"
+            if b.id in FENCE_ROWS:
+                res.holds(rid, key, FENCE_ROWS[b.id], where=f.loc, nontrivial=False)
+            elif o == "SeqCst":
+                res.holds(rid, key, "fence(SeqCst)", where=f.loc)
+            else:
+                res.violated(rid, key, f"wake-protocol fence at {f.loc} is {o}, not SeqCst: store->load ordering between publish and gate read is lost (invisible on x86 only for the store side)", where=f.loc)
+        for e in b.calls():
+            if e.is_atomic and e.method in ("load", "compare_exchange", "compare_exchange_weak") and e.args:
+                p = b.path_of_operand(e.args[0])
+                if not re.search(GATE_FIELD, p.rsplit(".", 1)[-1]) or "state" in p.rsplit(".", 1)[-1]:
+                    continue
+                key = f"{b.id}:gate:{p.rsplit('.', 1)[-1]}"
+                sq = [f for f in fences if (b.const_of_operand(f.args[0]) or {}).get("variant") == "SeqCst"]
+                if sq and b.dominated_by_any(e.pos, {f.pos for f in sq}):
+                    res.holds(rid, key, f"gate read at {e.loc} after fence(SeqCst) at {sq[0].loc}", where=e.loc)
+                else:
+                    res.violated(rid, key, f"gate `{p}` is read at {e.loc} without a preceding SeqCst fence in this function: the notifier can miss a waiter that registered concurrently",
+                                 where=e.loc)
+
+
+def clause3(P, res):
+    rid = "C05-3"
+    res.rule(rid, "publish implies notify: after every publishing event of the slot table (ring push/pop, chain publish, slot state store, progress "
+                  "store, cursor store, mailbox push, rendezvous fulfil) the matching notifier is called on every path to the function's exit")
+    for row, b, p, status, detail, nontriv in pr.check_notify_rows(P):
+        if b is None:
+            res.unclassified(rid, row["id"], detail)
+            continue
+        key = f"{row['id']}:{b.id}"
+        if status == "holds":
+            res.holds(rid, key, detail, where=p.loc, nontrivial=nontriv, witness=[f"publish {p.loc}", detail])
+        else:
+            res.violated(rid, key, detail, where=p.loc, witness=[f"publish {p.loc}", row["why"]])
+
+
 def run(P, ctx):
     res = Result("C05")
     res.extra["explanation"] = "Park/notify protocol shapes at every site that blocks a thread in fibre's channels."
     clause1(P, res)
+    clause2(P, res)
+    clause3(P, res)
     return res
